@@ -215,6 +215,7 @@ package radius
 //@ func (c *Client) SendAccounting
 //@   requires req != nil
 //@   sets acctStops = acctStops + ite(req.StatusType == AcctStatusStop, 1, 0)
+//@   sets acctStarts = acctStarts + ite(req.StatusType == AcctStatusStart, 1, 0)
 //@   ensures err == nil ==> acctSent()
 //@   ensures acctSent() || rad_sent_count() == old(rad_sent_count())
 //@   ensures acctSent() ==> sentInt(40, req.StatusType) && sentInt(5, req.NASPort)
